@@ -194,6 +194,14 @@ def c02_3(ctx):
             nd = meths["multiply"]
             a = [x.arg for x in nd.args.args]
             impls.append(("%s.Optimizations.multiply" % m.name.split(".")[-1], nd, "%s:%d" % (m.relpath, nd.lineno), a[1], a[2]))
+        # any OTHER method of the native class that drives the library's point multiplication itself (a raw_mul that no longer
+        # delegates to multiply) is one more implementation of the same decision, held to the same clauses: reduced scalar, and
+        # the zero shortcut (the library's affine-coordinate getter fails on the point at infinity and leaves its outputs at 0)
+        for mn, nd in sorted(meths.items()):
+            if mn != "multiply" and any(isinstance(c, ast.Call) and norm(c.func).endswith(("EC_POINT_mul", "ec_pubkey_tweak_mul")) for c in ast.walk(nd)):
+                a = [x.arg for x in nd.args.args]
+                if len(a) >= 2:
+                    impls.append(("%s.Optimizations.%s" % (m.name.split(".")[-1], mn), nd, "%s:%d" % (m.relpath, nd.lineno), "<the receiver>", a[-1]))
     g = ctx.func(GEN, "Generator.raw_mul")
     for name, node, where, pname, ename in impls + [("Generator.raw_mul", g.node, ctx.where(g), None, g.params()[1])]:
         params = {a.arg for a in node.args.args}
